@@ -6,7 +6,22 @@
 //! bytes into a fresh store, bytes into a dirty store, SlabRouter bytes, the quantising format)
 //! and observed again through the public read APIs of the store *and* of the engines; the two
 //! observations must be equal (vectors the slab stores through its lossy tensor-train path are
-//! judged against the documented tolerance).
+//! judged against the documented tolerance). The relational slab is observed through ALL of its
+//! public reads - schema, rows, row_count and the secondary-index reads (index_lookup / index_range
+//! / index_between over every Int column) - after a random multi-step history (indexes created
+//! before/between/after the rows, NULLs in indexed nullable columns, update_row / restore_row on
+//! indexed columns, deletes and resurrected rows, added/dropped columns): the reloaded slab must
+//! answer every such read like the original.
+//!
+//! configured-router part: the embedding slab's dimension is a configuration parameter of
+//! `SlabRouter` (`TensorStore::new()` always uses 384), so routers with dimensions 1..=600 (dense
+//! around 128/129 and 255/256/257) are filled with `emb:` entries of every representation class
+//! (dense random, dense low-rank, dense with specials, sparse, exactly-half-zero on either side of
+//! the sparse rule, all-zero, one-hot), overwritten/deleted/re-put, plus other keys, a relational
+//! slab history, graph slab edges and blob chunks, and round-tripped through to_bytes/from_bytes,
+//! save_to_file/load_from_file, save_v3_uncompressed/snapshot::load and snapshot()/restore().
+//! Vectors of a dimension below the documented threshold (256) must come back bit-identical
+//! whatever their class; longer ones as in the roundtrip part.
 //!
 //! crash part (in this binary): child modes used by the strace kill-injection leg
 //! (`legs_c07.py`), which kills a real save at every write/open/rename syscall and then loads
@@ -20,7 +35,8 @@ use serde_json::{json, Value};
 use std::collections::{BTreeMap, HashMap};
 use std::path::Path;
 use std::time::Instant;
-use tensor_store::{ChunkHash, ScalarValue, SlabRouter, TensorData, TensorStore, TensorValue};
+use tensor_store::ColumnType as SlabColumnType;
+use tensor_store::{ChunkHash, ColumnDef, ColumnValue, EntityId, RangeOp, RelationalSlab, RowId, ScalarValue, SlabRouter, SlabRouterConfig, TableSchema, TensorData, TensorStore, TensorValue};
 use vector_engine::VectorEngine;
 
 #[derive(Clone, Copy, PartialEq, Eq, Debug)]
@@ -46,6 +62,9 @@ struct Obs {
     blobs: BTreeMap<String, Vec<u8>>,
     /// relational slab read directly (router().relations): table -> (schema, rows with float bits)
     slab_tables: BTreeMap<String, (String, Vec<String>)>,
+    /// relational slab, the remaining public reads: table -> row_count and every non-empty answer of
+    /// index_lookup / index_range / index_between over every Int column (row ids sorted)
+    slab_index_reads: BTreeMap<String, Vec<String>>,
     /// graph slab read directly (router().graph): edge count and adjacency of entities 1..=8
     slab_graph: Vec<String>,
 }
@@ -147,10 +166,36 @@ fn observe(store: &TensorStore, blob_hashes: &[ChunkHash]) -> Obs {
             o.blobs.insert(format!("{:016x}", h.0), b);
         }
     }
-    let rs = &store.router().relations;
+    let (slab_tables, slab_index_reads) = observe_relations(&store.router().relations);
+    o.slab_tables = slab_tables;
+    o.slab_index_reads = slab_index_reads;
+    o.slab_graph = observe_graph_slab(&store.router().graph);
+    o
+}
+
+/// Keys every index read is tried with (besides the values found in the rows).
+const INDEX_KEYS: [i64; 10] = [i64::MIN, -3, -1, 0, 1, 2, 7, 15, 42, i64::MAX];
+
+fn sorted_ids(v: Result<Vec<RowId>, tensor_store::RelationalError>) -> Result<Vec<u64>, String> {
+    v.map(|ids| {
+        let mut ids: Vec<u64> = ids.iter().map(|i| i.as_u64()).collect();
+        ids.sort_unstable();
+        ids
+    })
+    .map_err(|e| format!("{:?}", e))
+}
+
+/// Everything the relational slab answers through its public read API: per table the schema and
+/// the live rows (float bits), and - separately - row_count and the secondary-index reads.
+#[allow(clippy::type_complexity)]
+fn observe_relations(rs: &RelationalSlab) -> (BTreeMap<String, (String, Vec<String>)>, BTreeMap<String, Vec<String>>) {
+    let mut tables = BTreeMap::new();
+    let mut reads = BTreeMap::new();
     for t in rs.table_names() {
-        let schema = format!("{:?}", rs.get_schema(&t));
-        let mut rows: Vec<String> = match rs.scan_all(&t) {
+        let schema_opt = rs.get_schema(&t);
+        let schema = format!("{:?}", schema_opt);
+        let scanned = rs.scan_all(&t);
+        let mut rows: Vec<String> = match &scanned {
             Ok(v) => v
                 .iter()
                 .map(|(id, row)| {
@@ -167,20 +212,57 @@ fn observe(store: &TensorStore, blob_hashes: &[ChunkHash]) -> Obs {
             Err(e) => vec![format!("scan error {:?}", e)],
         };
         rows.sort();
-        o.slab_tables.insert(t, (schema, rows));
+        tables.insert(t.clone(), (schema, rows));
+        let mut out = vec![format!("row_count {:?}", rs.row_count(&t).map_err(|e| format!("{:?}", e)))];
+        if let Some(s) = &schema_opt {
+            let empty = Vec::new();
+            let live = scanned.as_ref().unwrap_or(&empty);
+            for (ci, col) in s.columns.iter().enumerate() {
+                if col.col_type != SlabColumnType::Int {
+                    continue;
+                }
+                let mut keys: std::collections::BTreeSet<i64> = INDEX_KEYS.iter().copied().collect();
+                for (_, row) in live.iter().take(48) {
+                    if let Some(ColumnValue::Int(v)) = row.get(ci) {
+                        keys.insert(*v);
+                    }
+                }
+                let mut note = |what: String, ans: Result<Vec<u64>, String>| match ans {
+                    Ok(ids) if ids.is_empty() => {}
+                    Ok(ids) => out.push(format!("{} -> {:?}", what, ids)),
+                    Err(e) => out.push(format!("{} -> error {}", what, e)),
+                };
+                for k in &keys {
+                    note(format!("lookup {}={}", col.name, k), sorted_ids(rs.index_lookup(&t, &col.name, *k)));
+                }
+                for (name, op) in [("lt", RangeOp::Lt), ("le", RangeOp::Le), ("gt", RangeOp::Gt), ("ge", RangeOp::Ge)] {
+                    for k in [i64::MIN, -1, 0, 1, i64::MAX] {
+                        note(format!("range {} {} {}", col.name, name, k), sorted_ids(rs.index_range(&t, &col.name, op, k)));
+                    }
+                }
+                for (lo, hi) in [(i64::MIN, i64::MAX), (-5, 5), (0, 0), (1, i64::MAX), (i64::MIN, -1)] {
+                    note(format!("between {} {}..={}", col.name, lo, hi), sorted_ids(rs.index_between(&t, &col.name, lo, hi)));
+                }
+            }
+        }
+        reads.insert(t, out);
     }
-    let gs = &store.router().graph;
-    o.slab_graph.push(format!("edges={}", gs.edge_count()));
+    (tables, reads)
+}
+
+fn observe_graph_slab(gs: &tensor_store::GraphTensor) -> Vec<String> {
+    let mut slab_graph = Vec::new();
+    slab_graph.push(format!("edges={}", gs.edge_count()));
     for n in 1..=8u64 {
         let mut out: Vec<u64> = gs.outgoing(tensor_store::EntityId::new(n)).iter().map(|(to, _)| to.as_u64()).collect();
         let mut inc: Vec<u64> = gs.incoming(tensor_store::EntityId::new(n)).iter().map(|(fr, _)| fr.as_u64()).collect();
         out.sort();
         inc.sort();
         if !out.is_empty() || !inc.is_empty() {
-            o.slab_graph.push(format!("{} out {:?} in {:?}", n, out, inc));
+            slab_graph.push(format!("{} out {:?} in {:?}", n, out, inc));
         }
     }
-    o
+    slab_graph
 }
 
 struct Content {
@@ -195,6 +277,181 @@ fn low_rank_vector(rng: &mut Rng) -> Vec<f32> {
     let (a, b) = (rng.f64_in(0.5, 2.0), rng.f64_in(0.1, 0.9));
     let shift = rng.f64_in(0.2, 1.0);
     (0..384).map(|i| (a * (1.0 + (i % 8) as f64 * 0.1) * (1.0 + ((i / 8) % 8) as f64 * b) * (shift + (i / 64) as f64 * 0.3)) as f32).collect()
+}
+
+/// Int values relational-slab histories write (a small domain, so that equal keys, 0 and the
+/// extremes are frequent); `INDEX_KEYS` covers all of them.
+const HIST_INTS: [i64; 11] = [0, 0, 1, -1, 2, -3, 7, 15, 42, i64::MIN, i64::MAX];
+
+fn hist_value(rng: &mut Rng, col: &ColumnDef) -> ColumnValue {
+    if col.nullable && rng.chance(1, 3) {
+        return ColumnValue::Null;
+    }
+    match col.col_type {
+        SlabColumnType::Int => ColumnValue::Int(*rng.pick(&HIST_INTS)),
+        SlabColumnType::Float => ColumnValue::Float(*rng.pick(&[0.0, -0.0, 1.5, 2.25, f64::NEG_INFINITY, f64::NAN])),
+        SlabColumnType::String => ColumnValue::String(format!("n{}", rng.below(50))),
+        SlabColumnType::Bool => ColumnValue::Bool(rng.bool()),
+        SlabColumnType::Bytes => {
+            let n = rng.below(12);
+            ColumnValue::Bytes(rng.bytes(n))
+        }
+        SlabColumnType::Json => ColumnValue::Json(format!("{{\"k\":{}}}", rng.below(9))),
+    }
+}
+
+/// A random multi-step history on the relational slab, through its public write API only and
+/// always type-correct: tables `<prefix>0..2` with a non-null Int column, nullable Int columns and
+/// columns of the other types; indexes are created at any time (on the empty table, between and
+/// after the rows, on nullable columns, on columns added later); rows are inserted (singly and in
+/// batches, NULLs included), deleted, updated (also in indexed columns, also to NULL), rewritten
+/// (`restore_row`) and resurrected (`restore_deleted_row`); columns are added and dropped; a table
+/// may be dropped. Returns a short trace for samples.
+fn slab_history(rng: &mut Rng, rs: &RelationalSlab, prefix: &str, n_ops: usize) -> Vec<String> {
+    let mut trace: Vec<String> = Vec::new();
+    let mut tables: Vec<(String, u64)> = Vec::new(); // name, rows ever inserted
+    let mut next_table = 0usize;
+    let mut extra_col = 0usize;
+    let new_table = |rng: &mut Rng, tables: &mut Vec<(String, u64)>, next_table: &mut usize, trace: &mut Vec<String>| {
+        let name = format!("{}{}", prefix, *next_table);
+        *next_table += 1;
+        let mut cols = vec![ColumnDef::new("id", SlabColumnType::Int, false), ColumnDef::new("n1", SlabColumnType::Int, true)];
+        let mut optional = vec![
+            ColumnDef::new("n2", SlabColumnType::Int, true),
+            ColumnDef::new("name", SlabColumnType::String, true),
+            ColumnDef::new("score", SlabColumnType::Float, true),
+            ColumnDef::new("active", SlabColumnType::Bool, true),
+            ColumnDef::new("raw", SlabColumnType::Bytes, true),
+            ColumnDef::new("doc", SlabColumnType::Json, true),
+        ];
+        rng.shuffle(&mut optional);
+        let keep = rng.below(optional.len() + 1);
+        cols.extend(optional.into_iter().take(keep));
+        let schema = TableSchema::new(cols);
+        let schema = if rng.bool() { schema.with_primary_key("id") } else { schema };
+        if rs.create_table(&name, schema).is_ok() {
+            trace.push(format!("create_table {}", name));
+            // often: the index exists before the first row
+            if rng.bool() {
+                let c = *rng.pick(&["n1", "id", "n2"]);
+                if rs.create_index(&name, c).is_ok() {
+                    trace.push(format!("create_index {}.{} (empty table)", name, c));
+                }
+            }
+            tables.push((name, 0));
+        }
+    };
+    new_table(rng, &mut tables, &mut next_table, &mut trace);
+    for _ in 0..n_ops {
+        if tables.is_empty() {
+            new_table(rng, &mut tables, &mut next_table, &mut trace);
+            continue;
+        }
+        let ti = rng.below(tables.len());
+        let name = tables[ti].0.clone();
+        let Some(schema) = rs.get_schema(&name) else { continue };
+        let total = tables[ti].1;
+        let some_row = |rng: &mut Rng| RowId::new(rng.below(total as usize + 1) as u64);
+        match rng.weighted(&[40, 8, 10, 10, 12, 4, 5, 3, 2, 3, 1]) {
+            0 => {
+                let row: Vec<ColumnValue> = schema.columns.iter().map(|c| hist_value(rng, c)).collect();
+                if let Ok(id) = rs.insert(&name, row) {
+                    tables[ti].1 = tables[ti].1.max(id.as_u64() + 1);
+                }
+            }
+            1 => {
+                let rows: Vec<Vec<ColumnValue>> = (0..2 + rng.below(3)).map(|_| schema.columns.iter().map(|c| hist_value(rng, c)).collect()).collect();
+                if let Ok(ids) = rs.batch_insert(&name, rows) {
+                    for id in ids {
+                        tables[ti].1 = tables[ti].1.max(id.as_u64() + 1);
+                    }
+                    trace.push(format!("batch_insert {}", name));
+                }
+            }
+            2 => {
+                let c = rng.pick(&schema.columns).name.clone();
+                if rs.create_index(&name, &c).is_ok() {
+                    trace.push(format!("create_index {}.{} ({} rows so far)", name, c, total));
+                }
+            }
+            3 => {
+                let id = some_row(rng);
+                if rs.delete(&name, id) == Ok(true) {
+                    trace.push(format!("delete {}#{}", name, id.as_u64()));
+                }
+            }
+            4 => {
+                let id = some_row(rng);
+                let n = 1 + rng.below(2);
+                let updates: Vec<(String, ColumnValue)> = (0..n)
+                    .map(|_| {
+                        let c = rng.pick(&schema.columns).clone();
+                        let v = hist_value(rng, &c);
+                        (c.name, v)
+                    })
+                    .collect();
+                if rs.update_row(&name, id, &updates).is_ok() {
+                    trace.push(format!("update_row {}#{} {:?}", name, id.as_u64(), updates.iter().map(|u| u.0.as_str()).collect::<Vec<_>>()));
+                }
+            }
+            5 => {
+                let id = some_row(rng);
+                let row: Vec<ColumnValue> = schema.columns.iter().map(|c| hist_value(rng, c)).collect();
+                if rs.restore_row(&name, id, &row).is_ok() {
+                    trace.push(format!("restore_row {}#{}", name, id.as_u64()));
+                }
+            }
+            6 => {
+                let id = some_row(rng);
+                let row: Vec<ColumnValue> = schema.columns.iter().map(|c| hist_value(rng, c)).collect();
+                if rs.restore_deleted_row(&name, id, &row).is_ok() {
+                    trace.push(format!("restore_deleted_row {}#{}", name, id.as_u64()));
+                }
+            }
+            7 => {
+                extra_col += 1;
+                let c = ColumnDef::new(&format!("x{}", extra_col), SlabColumnType::Int, true);
+                let dflt = ColumnValue::Int(*rng.pick(&HIST_INTS));
+                if rs.add_column(&name, c, if rng.bool() { Some(&dflt) } else { None }).is_ok() {
+                    trace.push(format!("add_column {}.x{}", name, extra_col));
+                }
+            }
+            8 => {
+                if schema.columns.len() > 2 {
+                    let c = schema.columns[1 + rng.below(schema.columns.len() - 1)].name.clone();
+                    if rs.drop_column(&name, &c).is_ok() {
+                        trace.push(format!("drop_column {}.{}", name, c));
+                    }
+                }
+            }
+            9 => {
+                if tables.len() < 3 {
+                    new_table(rng, &mut tables, &mut next_table, &mut trace);
+                }
+            }
+            _ => {
+                if tables.len() > 1 && rs.drop_table(&name).is_ok() {
+                    trace.push(format!("drop_table {}", name));
+                    tables.remove(ti);
+                }
+            }
+        }
+    }
+    if trace.len() > 14 {
+        let n = trace.len();
+        trace.drain(7..n - 7);
+        trace.insert(7, "...".into());
+    }
+    trace
+}
+
+/// A dense vector of any length whose tensor-train ranks are <= 2 under every reshaping: the sum
+/// of two geometric sequences (each is a product of per-axis factors whatever the axes are).
+fn low_rank_vector_dim(rng: &mut Rng, dim: usize) -> Vec<f32> {
+    let (a, b) = (rng.f64_in(0.5, 2.0), rng.f64_in(0.2, 1.0));
+    let span = dim.max(2) as f64;
+    let (r1, r2) = ((rng.f64_in(-1.2, 1.2) / span).exp(), (rng.f64_in(-1.2, 1.2) / span).exp());
+    (0..dim).map(|i| (a * r1.powi(i as i32) + b * r2.powi(i as i32)) as f32).collect()
 }
 
 fn build_content(rng: &mut Rng, size: usize, exact_only: bool) -> Content {
@@ -295,6 +552,12 @@ fn build_content(rng: &mut Rng, size: usize, exact_only: bool) -> Content {
         }
         table_desc.push(json!({"table": name, "rows": n_rows}));
     }
+    // now and then tables that live in the relational slab only, with a multi-step history
+    let mut slab_trace = Vec::new();
+    if size >= 1 && rng.chance(1, 3) {
+        let n_ops = 5 + rng.below(40);
+        slab_trace = slab_history(rng, &store.router().relations, "h", n_ops);
+    }
     // graph
     let g = GraphEngine::with_store(store.clone());
     let n_nodes = (size / 4).min(200);
@@ -348,14 +611,14 @@ fn build_content(rng: &mut Rng, size: usize, exact_only: bool) -> Content {
         store,
         vec_kinds,
         blob_hashes,
-        description: json!({"raw_keys": n_raw, "tables": table_desc, "nodes": n_nodes, "edges": n_edges, "embeddings": n_vec}),
+        description: json!({"raw_keys": n_raw, "tables": table_desc, "slab_history": slab_trace, "nodes": n_nodes, "edges": n_edges, "embeddings": n_vec}),
     }
 }
 
 /// A store whose whole content lives in the slabs that are not addressed by keys: relational
 /// slab tables, graph slab edges, blob-log chunks (all reachable through `TensorStore::router()`).
 fn build_slab_only(rng: &mut Rng) -> Content {
-    use tensor_store::{ColumnDef, ColumnType, ColumnValue, EntityId, TableSchema};
+    use tensor_store::ColumnType;
     let store = TensorStore::new();
     let what = 1 + rng.below(7); // bit 0: tables, bit 1: graph slab, bit 2: blob chunks
     let mut desc = Vec::new();
@@ -397,6 +660,12 @@ fn build_slab_only(rng: &mut Rng) -> Content {
             let _ = rel.drop_column("st0", *rng.pick(&["id", "name", "score", "raw"]));
         }
         desc.push(format!("slab tables ({} rows)", n));
+        // plus tables with a longer random history (indexes at any time, NULLs, updates, ...)
+        if rng.chance(2, 3) {
+            let n_ops = 5 + rng.below(60);
+            let trace = slab_history(rng, rel, "h", n_ops);
+            desc.push(format!("slab history {:?}", trace));
+        }
     }
     if what & 2 != 0 {
         let n = 1 + rng.below(6);
@@ -427,6 +696,9 @@ fn rel_l2(a: &[f32], b: &[f32]) -> f64 {
 /// compare an observation taken after a round trip with the original; returns (signature, detail)
 fn compare(path: &str, orig: &Obs, got: &Obs, kinds: &BTreeMap<String, VecKind>, r: &mut Report, quantising: bool) -> Vec<(String, String)> {
     let mut out = Vec::new();
+    // the configured-router part counts separately, so that its observations cannot satisfy the
+    // floors of the store-level part
+    let cfg = path.starts_with("cfg-");
     let mut push = |sig: String, d: String| {
         if out.len() < 6 {
             out.push((sig, d));
@@ -483,7 +755,7 @@ fn compare(path: &str, orig: &Obs, got: &Obs, kinds: &BTreeMap<String, VecKind>,
         match got.slab_vectors.get(k) {
             None => {
                 if !quantising {
-                    push(format!("roundtrip:{}:slab-vector-missing", path), format!("{} has no 384-dim _embedding after round trip", k));
+                    push(format!("roundtrip:{}:slab-vector-missing", path), format!("{} has no slab-dimension _embedding after round trip", k));
                 }
             }
             Some(g) => {
@@ -493,21 +765,24 @@ fn compare(path: &str, orig: &Obs, got: &Obs, kinds: &BTreeMap<String, VecKind>,
                 }
                 match kind {
                     VecKind::Exact => {
-                        r.count("exact_slab_vectors_compared", 1);
+                        r.count(if cfg { "cfg_exact_slab_vectors_compared" } else { "exact_slab_vectors_compared" }, 1);
                         if g.len() != v.len() || g.iter().zip(v).any(|(a, b)| a.to_bits() != b.to_bits()) {
                             let i = g.iter().zip(v).position(|(a, b)| a.to_bits() != b.to_bits());
-                            push(format!("roundtrip:{}:slab-vector-not-exact", path), format!("{}: first differing element {:?}: {:?} vs {:?}", k, i, i.map(|i| v[i]), i.map(|i| g[i])));
+                            let dev = g.iter().zip(v).map(|(a, b)| (a - b).abs()).fold(0.0f32, f32::max);
+                            // the statement's own class: shorter than the documented compression threshold
+                            let what = if v.len() < 256 { "slab-vector-below-256-not-bit-identical" } else { "slab-vector-not-exact" };
+                            push(format!("roundtrip:{}:{}", path, what), format!("{} (dimension {} -> {}): first differing element {:?}: {:?} vs {:?}; max abs deviation {:e}", k, v.len(), g.len(), i, i.map(|i| v[i]), i.map(|i| g[i]), dev));
                         }
                     }
                     VecKind::TtLowRank => {
                         let e = rel_l2(v, g);
-                        r.count("tt_vectors_judged_against_1pct", 1);
+                        r.count(if cfg { "cfg_tt_vectors_judged_against_1pct" } else { "tt_vectors_judged_against_1pct" }, 1);
                         if !(e < 0.01) {
                             push(format!("roundtrip:{}:tt-vector-outside-documented-1pct", path), format!("{}: relative L2 error {:.4}", k, e));
                         }
                     }
                     VecKind::TtRandom => {
-                        r.count("tt_vectors_not_judged_rank_cap", 1);
+                        r.count(if cfg { "cfg_vectors_not_judged_no_documented_bound" } else { "tt_vectors_not_judged_rank_cap" }, 1);
                         if g.len() != v.len() {
                             push(format!("roundtrip:{}:slab-vector-dimension-changed", path), format!("{}: {} -> {}", k, v.len(), g.len()));
                         }
@@ -555,6 +830,20 @@ fn compare(path: &str, orig: &Obs, got: &Obs, kinds: &BTreeMap<String, VecKind>,
         if orig.slab_tables != got.slab_tables {
             let d = orig.slab_tables.iter().find(|(t, v)| got.slab_tables.get(*t) != Some(v)).map(|(t, v)| format!("table {}: {:?} vs {:?}", t, v, got.slab_tables.get(t)));
             push(format!("roundtrip:{}:relational-slab-differs", path), format!("{} tables vs {}; {}", orig.slab_tables.len(), got.slab_tables.len(), trunc(&d.unwrap_or_default(), 400)));
+        }
+        // the remaining public reads of the relational slab: row_count and the index reads
+        for (t, reads) in &orig.slab_index_reads {
+            r.count(if cfg { "cfg_slab_index_answers_compared" } else { "slab_index_answers_compared" }, reads.len().saturating_sub(1) as u64);
+            match got.slab_index_reads.get(t) {
+                None => {} // table missing: reported above
+                Some(g) if g == reads => {}
+                Some(g) => {
+                    let d = reads.iter().find(|l| !g.contains(l)).cloned().or_else(|| g.iter().find(|l| !reads.contains(l)).map(|l| format!("(only after the round trip) {}", l))).unwrap_or_default();
+                    let what = if d.contains("row_count") { "row-count" } else { "index-reads" };
+                    let other = g.iter().find(|l| l.split(" -> ").next() == d.split(" -> ").next()).cloned().unwrap_or_else(|| "no rows".into());
+                    push(format!("roundtrip:{}:relational-slab-{}-differ", path, what), format!("table {}: original answers `{}`, reloaded answers `{}`", t, trunc(&d, 200), trunc(&other, 200)));
+                }
+            }
         }
         if orig.slab_graph != got.slab_graph {
             push(format!("roundtrip:{}:graph-slab-differs", path), format!("{:?} vs {:?}", orig.slab_graph, got.slab_graph));
@@ -695,6 +984,274 @@ fn report_bytes(report: &mut impl FnMut(&str, Result<Obs, String>, &mut Report, 
         o
     });
     report(path, got, r, false);
+}
+
+// -------------------------------------------------------------------------------------------
+// configured-router part: the embedding slab's dimension is configuration
+// -------------------------------------------------------------------------------------------
+
+/// Dimensions around the rules of the embedding slab's snapshot encoding (sparse at >= 50 % zeros,
+/// tensor-train from the documented threshold 256 on), plus a uniformly random one now and then.
+fn pick_slab_dim(rng: &mut Rng) -> usize {
+    const DIMS: [usize; 30] = [1, 2, 3, 7, 16, 31, 64, 100, 127, 128, 129, 130, 144, 160, 176, 192, 200, 224, 240, 250, 254, 255, 256, 257, 288, 320, 384, 400, 512, 513];
+    if rng.chance(1, 4) {
+        1 + rng.below(600)
+    } else {
+        *rng.pick(&DIMS)
+    }
+}
+
+/// One slab-dimension vector of a random representation class and what the property lets us
+/// demand of it after a round trip.
+fn gen_cfg_vector(rng: &mut Rng, dim: usize) -> (Vec<f32>, VecKind, &'static str) {
+    let short = dim < 256;
+    let nonzero = |rng: &mut Rng| {
+        let m = 0.01 + rng.unit_f64() as f32 * 2.0;
+        if rng.bool() {
+            m
+        } else {
+            -m
+        }
+    };
+    // exactly `nnz` non-zero components (magnitude >= 0.01) at random positions, the rest +0.0
+    let with_nnz = |rng: &mut Rng, nnz: usize| {
+        let mut pos: Vec<usize> = (0..dim).collect();
+        rng.shuffle(&mut pos);
+        let mut v = vec![0.0f32; dim];
+        for &p in pos.iter().take(nnz.min(dim)) {
+            v[p] = nonzero(rng);
+        }
+        v
+    };
+    match rng.below(9) {
+        0 | 1 => ((0..dim).map(|_| nonzero(rng)).collect(), if short { VecKind::Exact } else { VecKind::TtRandom }, "dense-random"),
+        2 => (low_rank_vector_dim(rng, dim), if short { VecKind::Exact } else { VecKind::TtLowRank }, "dense-low-rank"),
+        3 if short => {
+            // dense with special values on at most a tenth of the positions
+            let mut v: Vec<f32> = (0..dim).map(|_| nonzero(rng)).collect();
+            for _ in 0..dim / 10 {
+                let i = rng.below(dim);
+                v[i] = *rng.pick(&[f32::NAN, f32::INFINITY, f32::NEG_INFINITY, -0.0, 0.0, f32::MIN_POSITIVE, 1e-7, f32::MAX, f32::MIN]);
+            }
+            (v, VecKind::Exact, "dense-specials")
+        }
+        3 => ((0..dim).map(|_| nonzero(rng) * 1e-3).collect(), VecKind::TtRandom, "dense-small-magnitude"),
+        4 => {
+            // at least 55 % exact zeros: the exact sparse encoding at every dimension
+            let nnz = (dim * 9 / 20).min(rng.below(dim * 9 / 20 + 1));
+            (with_nnz(rng, nnz), VecKind::Exact, "sparse")
+        }
+        // exactly half (rounded down) non-zero: the last vector the sparse rule takes ...
+        5 => (with_nnz(rng, dim / 2), if short { VecKind::Exact } else { VecKind::TtRandom }, "half-zero"),
+        // ... and the first one it does not
+        6 => (with_nnz(rng, dim / 2 + 1), if short { VecKind::Exact } else { VecKind::TtRandom }, "just-dense"),
+        7 => {
+            let nnz = rng.below(2);
+            (with_nnz(rng, nnz), VecKind::Exact, "zero-or-one-hot")
+        }
+        _ => {
+            // dense with a few zeros
+            let nnz = dim - rng.below(dim / 4 + 1);
+            (with_nnz(rng, nnz), if short { VecKind::Exact } else { VecKind::TtRandom }, "mostly-dense")
+        }
+    }
+}
+
+struct RouterContent {
+    router: SlabRouter,
+    dim: usize,
+    kinds: BTreeMap<String, VecKind>,
+    /// emb key -> representation class of the slab vector it holds at the end
+    classes: BTreeMap<String, &'static str>,
+    blob_hashes: Vec<ChunkHash>,
+    description: Value,
+}
+
+fn build_router(rng: &mut Rng, size: usize) -> RouterContent {
+    let dim = pick_slab_dim(rng);
+    let cfg = SlabRouterConfig {
+        embedding_dim: dim,
+        cache_capacity: *rng.pick(&[10_000usize, 64]),
+        graph_merge_threshold: *rng.pick(&[10_000usize, 3]),
+        ..SlabRouterConfig::default()
+    };
+    let router = SlabRouter::with_config(&cfg);
+    let mut kinds = BTreeMap::new();
+    let mut classes: BTreeMap<String, &'static str> = BTreeMap::new();
+    let mut wid = 0u64;
+    let n_emb = 1 + rng.below(size.max(1));
+    // one write to an emb: key: a slab-dimension vector of some class, a vector of another
+    // dimension (lives in the metadata only), or no vector at all
+    let put_emb = |rng: &mut Rng, key: &str, wid: &mut u64, kinds: &mut BTreeMap<String, VecKind>, classes: &mut BTreeMap<String, &'static str>| {
+        *wid += 1;
+        let mut d = gen_data(rng, "k:fields", *wid, true);
+        match rng.below(8) {
+            0 => {
+                let other = if dim > 3 && rng.bool() { 3 } else { dim + 1 };
+                d.set("_embedding", TensorValue::Vector((0..other).map(|i| i as f32 * 0.5 - 1.0).collect()));
+                kinds.remove(key);
+                classes.remove(key);
+            }
+            1 => {
+                kinds.remove(key);
+                classes.remove(key);
+            }
+            _ => {
+                let (v, kind, class) = gen_cfg_vector(rng, dim);
+                d.set("_embedding", TensorValue::Vector(v));
+                kinds.insert(key.to_string(), kind);
+                classes.insert(key.to_string(), class);
+            }
+        }
+        let _ = router.put(key, d);
+    };
+    for i in 0..n_emb {
+        put_emb(rng, &format!("emb:e{}", i), &mut wid, &mut kinds, &mut classes);
+    }
+    // history on the emb: keys: overwrite (in place, slab vector <-> metadata-only vector), delete,
+    // put again (slot reuse)
+    for _ in 0..rng.below(n_emb + 1) {
+        let key = format!("emb:e{}", rng.below(n_emb));
+        if rng.chance(1, 3) {
+            if router.delete(&key).is_ok() {
+                kinds.remove(&key);
+                classes.remove(&key);
+            }
+        } else {
+            put_emb(rng, &key, &mut wid, &mut kinds, &mut classes);
+        }
+    }
+    // other keys of every class and value kind
+    let n_other = rng.below(size + 1);
+    for i in 0..n_other {
+        let k = match rng.below(5) {
+            0 => format!("k:{}", i),
+            1 => format!("user/é:{}", i),
+            2 => format!("meta:{}", i),
+            3 => format!("_cache:q{}", i),
+            _ => format!("node:{}", i),
+        };
+        wid += 1;
+        let d = gen_data(rng, &k, wid, true);
+        let _ = router.put(&k, d);
+    }
+    let mut slab_trace = Vec::new();
+    if rng.chance(2, 3) {
+        let n_ops = 5 + rng.below(50);
+        slab_trace = slab_history(rng, &router.relations, "h", n_ops);
+    }
+    let mut n_edges = 0;
+    if rng.bool() {
+        n_edges = 1 + rng.below(8);
+        for _ in 0..n_edges {
+            let (a, b) = (1 + rng.below(8) as u64, 1 + rng.below(8) as u64);
+            router.graph.add_edge(EntityId::new(a), EntityId::new(b), *rng.pick(&["knows", "likes"]), rng.bool());
+        }
+    }
+    let mut blob_hashes = Vec::new();
+    if rng.chance(1, 3) {
+        for _ in 0..1 + rng.below(3) {
+            let n = 1 + rng.below(300);
+            let data = rng.bytes(n);
+            blob_hashes.push(router.blobs.append(&data));
+        }
+    }
+    let mut by_class: BTreeMap<&str, usize> = BTreeMap::new();
+    for c in classes.values() {
+        *by_class.entry(c).or_default() += 1;
+    }
+    let description = json!({"embedding_dim": dim, "cache_capacity": cfg.cache_capacity, "graph_merge_threshold": cfg.graph_merge_threshold, "slab_vectors_by_class": by_class, "other_keys": n_other, "slab_history": slab_trace, "graph_slab_edges": n_edges, "blob_chunks": blob_hashes.len()});
+    RouterContent { router, dim, kinds, classes, blob_hashes, description }
+}
+
+/// The router observed through its own public reads: scan + get per key (the `_embedding` of the
+/// slab's dimension, which `get` takes from the embedding slab, is kept apart), the relational
+/// slab, the graph slab, the blob log.
+fn observe_router(router: &SlabRouter, blob_hashes: &[ChunkHash]) -> Obs {
+    let mut o = Obs::default();
+    let dim = router.embeddings.dimension();
+    o.view.insert("<embedding slab>".into(), format!("dimension={}", dim));
+    for k in router.scan("") {
+        match router.get(&k) {
+            Ok(mut d) => {
+                if k.starts_with("emb:") && router.index.get(&k).map_or(false, |id| router.embeddings.contains(id)) {
+                    if let Some(TensorValue::Vector(v)) = d.get("_embedding") {
+                        if v.len() == dim {
+                            o.slab_vectors.insert(k.clone(), v.clone());
+                            d.remove("_embedding");
+                        }
+                    }
+                }
+                o.view.insert(k, canon_data(&d));
+            }
+            Err(_) => {
+                o.view.insert(k, "<listed by scan but get fails>".into());
+            }
+        }
+    }
+    for h in blob_hashes {
+        if let Some(b) = router.blobs.get(h) {
+            o.blobs.insert(format!("{:016x}", h.0), b);
+        }
+    }
+    let (slab_tables, slab_index_reads) = observe_relations(&router.relations);
+    o.slab_tables = slab_tables;
+    o.slab_index_reads = slab_index_reads;
+    o.slab_graph = observe_graph_slab(&router.graph);
+    o
+}
+
+fn router_case(case_seed: u64, r: &mut Report, args: &Args) {
+    let mut rng = Rng::new(case_seed);
+    let size = *rng.pick(&[1usize, 3, 8, 20, args.by_tier(40, 300)]);
+    let c = build_router(&mut rng, size);
+    let orig = observe_router(&c.router, &c.blob_hashes);
+    let scratch = args.scratch_dir("c07g");
+    let replay = json!({"part": "cfg-router", "case_seed": case_seed});
+    let mut paths = 0u64;
+    let mut report = |path: &str, got: Result<Obs, String>, r: &mut Report| {
+        r.count(&format!("roundtrips_{}", path), 1);
+        paths += 1;
+        match got {
+            Err(e) => r.violation(format!("roundtrip:{}:load-error", path), format!("{} (content {})", e, c.description), replay.clone()),
+            Ok(g) => {
+                for (sig, d) in compare(path, &orig, &g, &c.kinds, r, false) {
+                    r.violation(sig, format!("{} (content {})", d, c.description), replay.clone());
+                }
+            }
+        }
+    };
+    // bytes form
+    let got = c.router.to_bytes().map_err(|e| format!("to_bytes: {}", e)).and_then(|b| SlabRouter::from_bytes(&b).map_err(|e| format!("from_bytes: {}", e))).map(|x| observe_router(&x, &c.blob_hashes));
+    report("cfg-bytes", got, r);
+    // default file format (zstd)
+    let p = scratch.join("g.snap");
+    let got = c.router.save_to_file(&p).map_err(|e| format!("save: {}", e)).and_then(|_| SlabRouter::load_from_file(&p).map_err(|e| format!("load: {}", e))).map(|x| observe_router(&x, &c.blob_hashes));
+    report("cfg-file", got, r);
+    // file format without general-purpose compression
+    let p = scratch.join("u.snap");
+    let got = tensor_store::snapshot::save_v3_uncompressed(&c.router, &p).map_err(|e| format!("save: {}", e)).and_then(|_| tensor_store::snapshot::load(&p).map_err(|e| format!("load: {}", e))).map(|x| observe_router(&x, &c.blob_hashes));
+    report("cfg-file-uncompressed", got, r);
+    // the in-memory image itself
+    let got = Ok(observe_router(&SlabRouter::restore(c.router.snapshot()), &c.blob_hashes));
+    report("cfg-snapshot-restore", got, r);
+    // the original is untouched by all of this
+    // (compared through the Debug rendering: NaN components are equal to themselves there)
+    if obs_hash(&observe_router(&c.router, &c.blob_hashes)) != obs_hash(&orig) {
+        r.violation("roundtrip:cfg:saving-changed-the-original", format!("the router reads differently after it was saved (content {})", c.description), replay.clone());
+    }
+    let short_dense = if c.dim < 256 { c.classes.values().filter(|cl| !matches!(**cl, "sparse" | "half-zero" | "zero-or-one-hot")).count() as u64 } else { 0 };
+    r.count("cfg_router_cases", 1);
+    r.count("cfg_dense_vectors_below_256_held_to_bit_identity", short_dense * paths);
+    if (129..256).contains(&c.dim) {
+        r.count("cfg_dense_vectors_of_dim_129_to_255_held_to_bit_identity", short_dense * paths);
+    }
+    r.count(if c.dim < 256 { "cfg_routers_below_threshold" } else { "cfg_routers_at_or_above_threshold" }, 1);
+    let nontrivial = !c.kinds.is_empty();
+    r.eval(hash_str(&format!("{} {:?}", c.dim, c.classes)) ^ case_seed, nontrivial);
+    if r.want_sample() && nontrivial && case_seed % 4 == 0 {
+        r.sample(json!({"part": "cfg-router", "content": c.description, "keys": orig.view.len()}));
+    }
 }
 
 // -------------------------------------------------------------------------------------------
@@ -970,6 +1527,7 @@ fn main() {
     let started = Instant::now();
     quiet_panics();
     let mut total = Report::new();
+    let only_part: Option<String> = args.extra.get("part").cloned();
     if let Some(p) = &args.replay {
         let v: Value = serde_json::from_str(&std::fs::read_to_string(p).expect("replay")).expect("json");
         let rp = &v["replay"];
@@ -978,31 +1536,59 @@ fn main() {
             "temp-prefix" => temp_prefix_case(s, &mut total, &args),
             "resnapshot" => resnapshot_case(s, &mut total, &args),
             "roundtrip-big" => roundtrip_case(s, &mut total, &args, true),
+            "cfg-router" => router_case(s, &mut total, &args),
             _ => roundtrip_case(s, &mut total, &args, false),
         }
     } else {
-        let a2 = args.clone();
-        let rep = par_cases(args.threads, args.seed, args.by_tier(400, 30_000), args.budget(35, 600), move |_i, s, r| roundtrip_case(s, r, &a2, false));
-        total.merge(rep);
-        let a2 = args.clone();
-        let rep = par_cases(args.threads.min(4), args.seed ^ 0xB16, args.by_tier(2, 12), args.budget(40, 400), move |_i, s, r| roundtrip_case(s, r, &a2, true));
-        total.merge(rep);
-        let a2 = args.clone();
-        let rep = par_cases(args.threads, args.seed ^ 0x7E, args.by_tier(60, 3_000), args.budget(20, 300), move |_i, s, r| temp_prefix_case(s, r, &a2));
-        total.merge(rep);
-        let a2 = args.clone();
-        let rep = par_cases(args.threads, args.seed ^ 0x5E, args.by_tier(300, 10_000), args.budget(15, 240), move |_i, s, r| resnapshot_case(s, r, &a2));
-        total.merge(rep);
+        // `--part <name>` runs one part only (diagnostic aid; the floors of the other parts are dropped)
+        let want = |p: &str| only_part.as_deref().map_or(true, |o| o == p);
+        if want("roundtrip") {
+            let a2 = args.clone();
+            let rep = par_cases(args.threads, args.seed, args.by_tier(400, 30_000), args.budget(35, 600), move |_i, s, r| roundtrip_case(s, r, &a2, false));
+            total.merge(rep);
+        }
+        if want("cfg-router") {
+            let a2 = args.clone();
+            let rep = par_cases(args.threads, args.seed ^ 0xC0F6, args.by_tier(480, 20_000), args.budget(15, 240), move |_i, s, r| router_case(s, r, &a2));
+            total.merge(rep);
+        }
+        if want("roundtrip-big") {
+            let a2 = args.clone();
+            let rep = par_cases(args.threads.min(4), args.seed ^ 0xB16, args.by_tier(2, 12), args.budget(40, 400), move |_i, s, r| roundtrip_case(s, r, &a2, true));
+            total.merge(rep);
+        }
+        if want("temp-prefix") {
+            let a2 = args.clone();
+            let rep = par_cases(args.threads, args.seed ^ 0x7E, args.by_tier(60, 3_000), args.budget(20, 300), move |_i, s, r| temp_prefix_case(s, r, &a2));
+            total.merge(rep);
+        }
+        if want("resnapshot") {
+            let a2 = args.clone();
+            let rep = par_cases(args.threads, args.seed ^ 0x5E, args.by_tier(300, 10_000), args.budget(15, 240), move |_i, s, r| resnapshot_case(s, r, &a2));
+            total.merge(rep);
+        }
     }
     let meta = Meta {
         property: "C07",
-        rule: "roundtrip case = store of 0..200 (a few of 3 000 / 30 000) raw entries over all value kinds and key classes + relational tables (Int/Float/String/Bool/Bytes, nullable, optional index) + graph nodes/edges with properties + vector-engine embeddings (dims 2-255 and 384) + blob-log chunks, saved and reloaded through 9 paths (file, v3 uncompressed, v3 default/zstd, bytes->fresh store, bytes->dirty store, bytes->store with a Bloom filter, SlabRouter bytes, quantising format default and balanced) and observed through store scan/get AND RelationalEngine/GraphEngine/VectorEngine reads; temp-prefix case = destination A + every (small) or sampled prefix of B's bytes as the sibling temp file, then the renamed file, plus a real save over a longer leftover temp file; resnapshot case = image, 1-3 changes of random kind (relational rows through the slab, new table, clear(), graph node, raw put, delete rows), image again after each change, restored and compared with the live store. Distinct = hash of key set x seed; non-trivial = at least 3 keys (round trip) / A and B differ (crash).",
+        rule: "roundtrip case = store of 0..200 (a few of 3 000 / 30 000) raw entries over all value kinds and key classes + relational tables (Int/Float/String/Bool/Bytes, nullable, optional index) + graph nodes/edges with properties + vector-engine embeddings (dims 2-255 and 384) + blob-log chunks, saved and reloaded through 9 paths (file, v3 uncompressed, v3 default/zstd, bytes->fresh store, bytes->dirty store, bytes->store with a Bloom filter, SlabRouter bytes, quantising format default and balanced) and observed through store scan/get AND RelationalEngine/GraphEngine/VectorEngine reads; temp-prefix case = destination A + every (small) or sampled prefix of B's bytes as the sibling temp file, then the renamed file, plus a real save over a longer leftover temp file; resnapshot case = image, 1-3 changes of random kind (relational rows through the slab, new table, clear(), graph node, raw put, delete rows), image again after each change, restored and compared with the live store. Distinct = hash of key set x seed; non-trivial = at least 3 keys (round trip) / A and B differ (crash). The relational slab (router().relations) of a store is, in a third of the stores, additionally given tables with a random multi-step history (create_index on the empty table / between / after the rows and on nullable or later-added Int columns, inserts with NULLs, batch inserts, deletes, update_row and restore_row on indexed columns, restore_deleted_row, add/drop column, drop table) and is observed through all its public reads: schema, live rows, row_count and every non-empty answer of index_lookup / index_range (4 operators) / index_between over every Int column for the keys {i64::MIN,-3,-1,0,1,2,7,15,42,i64::MAX} + the values in the rows; original and reloaded slab must answer alike. cfg-router case = SlabRouter::with_config with embedding_dim from {1..600, dense around 128/129 and 255/256/257} (cache capacity and graph merge threshold varied too) holding 1..40 (thorough ..300) emb: entries whose slab vector is dense-random / dense-low-rank / dense with NaN, inf, -0.0, subnormals / sparse / exactly half zero / one more than half non-zero / all-zero / one-hot, rewritten, replaced by vectors of another dimension, deleted and put again, plus other keys, a relational slab history, graph slab edges and blob chunks; round-tripped through to_bytes/from_bytes, save_to_file/load_from_file, save_v3_uncompressed/snapshot::load and snapshot()/restore(); observed through scan/get, the relational slab reads, graph slab and blob log; distinct = hash of (dimension, class of every slab vector) x seed, non-trivial = at least one slab vector.",
         assumptions: vec![
             "384-dim slab vectors with >= 55% zeros are expected bit-exact (the slab snapshot's sparse path); dense low-TT-rank 384-dim vectors are held to the documented <1% relative L2 error; dense random 384-dim vectors are not judged (no bound is documented when the rank cap binds)".into(),
             "quantising format: vector payloads are not judged beyond presence; everything else must be exact".into(),
+            "embedding slabs of another dimension (cfg-router part): every slab vector of a dimension below the documented compression threshold 256 must come back bit-identical whatever its representation class (zeros in the sparse classes are +0.0 and their non-zero components have magnitude >= 0.01, so the sparse encoding's own 1e-6 cut-off is never in play); at dimensions >= 256 vectors with >= 55% zeros are held to bit-exactness, dense sums of two geometric sequences (TT-rank <= 2 under any reshaping) to the documented <1% relative L2 error, other dense or half-zero vectors are not judged beyond their dimension".into(),
+            "relational slab: the secondary-index reads are compared between the original and the reloaded slab (same row ids for the same key/range), not against a model of what an index should contain - postings that update_row left stale in the original are expected to be equally stale after the round trip".into(),
             "for restore_from_bytes, blob-log chunks (router().blobs) and the graph slab (router().graph) are outside the comparison (the live store keeps its own); the relational slab is inside".into(),
         ],
-        floors: if args.replay.is_some() { vec![] } else { vec![("evaluations", 60), ("keys_compared", 2_000), ("table_rows_compared", 500), ("graph_entities_compared", 500), ("exact_slab_vectors_compared", 100), ("temp_prefix_images", 500), ("max:store_entries", 2_000), ("resnapshots_compared", 200), ("saves_over_stale_temp_file", 20)] },
+        floors: if args.replay.is_some() {
+            vec![]
+        } else if let Some(part) = &only_part {
+            match part.as_str() {
+                "cfg-router" => vec![("cfg_router_cases", 40), ("cfg_dense_vectors_of_dim_129_to_255_held_to_bit_identity", 200), ("cfg_exact_slab_vectors_compared", 1_000), ("cfg_slab_index_answers_compared", 1_000)],
+                "roundtrip" => vec![("keys_compared", 2_000), ("exact_slab_vectors_compared", 100), ("slab_index_answers_compared", 1_000)],
+                _ => vec![("evaluations", 1)],
+            }
+        } else {
+            vec![("evaluations", 60), ("keys_compared", 2_000), ("table_rows_compared", 500), ("graph_entities_compared", 500), ("exact_slab_vectors_compared", 100), ("temp_prefix_images", 500), ("max:store_entries", 2_000), ("resnapshots_compared", 200), ("saves_over_stale_temp_file", 20), ("slab_index_answers_compared", 1_000), ("cfg_router_cases", 40), ("cfg_dense_vectors_of_dim_129_to_255_held_to_bit_identity", 200), ("cfg_dense_vectors_below_256_held_to_bit_identity", 500), ("cfg_exact_slab_vectors_compared", 1_000), ("cfg_slab_index_answers_compared", 1_000)]
+        },
         exhaustive: false,
     };
     write_result(&args, &meta, &total, started);
